@@ -118,4 +118,22 @@ func TestMkCorpus(t *testing.T) {
 	mk("select-f64", om.Handmade(cfg, "FFi", "F", "select", true, false, nil, []string{"local.get $a", "local.get $b", "local.get $c", "select"}, u(1, 2, 0), u(1, 2, 0x100)))
 	mk("params-12", om.Handmade(cfg, "iIfFiIfFiIfF", "F", "local.get", true, false, nil, []string{"local.get $l"}, u(1, 2, 3, 4, 5, 6, 7, 8, 9, 10, 11, 12)))
 	mk("params-9-i32", om.Handmade(cfg, "iiiiiiiii", "i", "local.get", true, false, nil, []string{"local.get $g", "local.get $i", "i32.add"}, u(1, 2, 3, 4, 5, 6, 7, 8, 9)))
+	mk("x-pending-values-loop", om.Handmade(cfg, "i", "ii", "br", true, false, nil, []string{"i32.const 11", "i32.const 22", "block $b", "loop $l", "local.get $a", "i32.eqz", "if $I", "br $b", "else", "end", "local.get $a", "i32.const 1", "i32.sub", "local.set $a", "br $l", "end", "end"}, u(3), u(0)))
+	mk("x-if-multi-result", om.Handmade(cfg, "i", "ii", "if", true, false, nil, []string{"local.get $a", "if $I (result i32 i32)", "i32.const 11", "i32.const 22", "else", "i32.const 33", "i32.const 44", "end"}, u(1), u(0)))
+	mk("x-if-multi-result-call", om.Handmade(cfg, "i", "ii", "if", true, false, map[string]byte{"d": 'i'}, []string{"local.get $a", "if $I (result i32 i32)", "i32.const 11", "i32.const 22", "else", "i32.const 5", "i32.const 6", "call $h_add", "call $h_dup", "local.set $d", "i32.const 44", "drop", "end"}, u(1), u(0)))
+	mk("x-append-then", om.Handmade(cfg, "iiiiiiii", "i", "if", true, true, map[string]byte{"item": 'i', "xlen": 'i', "ylen": 'i', "newlen": 'i', "src": 'i', "dest": 'i'}, []string{
+		"local.get $c", "local.set $xlen", "local.get $g", "local.set $ylen", "local.get $xlen", "local.get $ylen", "i32.add", "local.set $newlen",
+		"local.get $newlen", "local.get $d", "i32.le_u",
+		"if $I (result i32 i32 i32 i32)",
+		"local.get $a", "i32.const 0", "call $h_add", "local.get $b", "local.get $newlen", "local.get $d",
+		"local.get $f", "local.set $src", "local.get $b", "i32.const 4", "local.get $xlen", "i32.mul", "i32.add", "local.set $dest",
+		"block $block1", "loop $loop1", "local.get $ylen", "i32.eqz", "if $J", "br $block1", "else", "end",
+		"local.get $src", "i32.load offset=0 align=4", "local.set $item", "local.get $dest", "local.get $item", "i32.store offset=0 align=4",
+		"local.get $src", "i32.const 4", "i32.add", "local.set $src", "local.get $dest", "i32.const 4", "i32.add", "local.set $dest",
+		"local.get $ylen", "i32.const 1", "i32.sub", "local.set $ylen", "br $loop1", "end", "end",
+		"else", "i32.const 1", "i32.const 2", "i32.const 3", "i32.const 4", "end",
+		"i32.add", "i32.add", "i32.add"}, u(100, 1024, 3, 10, 200, 2048, 1, 1)))
+	mk("x-8params-4results", om.Handmade(cfg, "iiiiiiii", "iiii", "return", true, false, nil, []string{"local.get $g", "local.get $h", "local.get $a", "local.get $f"}, u(1, 2, 3, 4, 5, 6, 7, 8)))
+	mk("x-2params-4results", om.Handmade(cfg, "ii", "iiii", "return", true, false, nil, []string{"local.get $a", "local.get $b", "local.get $a", "local.get $b"}, u(1, 2)))
+	mk("x-7params-3results", om.Handmade(cfg, "iIfFiIi", "iIi", "return", true, false, nil, []string{"local.get $g", "local.get $f", "local.get $a"}, u(1, 2, 3, 4, 5, 6, 7)))
 }
